@@ -209,7 +209,14 @@ func newStreamCodec(rwc io.ReadWriteCloser, f streamEncoding) *streamCodec {
 
 func (c *streamCodec) Encode(ctx context.Context, m *capnp.Message) error {
 	c.wc.setWriteContext(ctx)
-	return c.enc.Encode(m)
+	err := c.enc.Encode(m)
+	if err != nil && c.wc.written > 0 {
+		// Part of the frame is on the wire: the stream is broken, whatever
+		// the error was (the Encoder wraps the writer's error, so the type of
+		// a short write's error does not survive).
+		return partialWriteError{err}
+	}
+	return err
 }
 
 func (c *streamCodec) Decode(ctx context.Context) (*capnp.Message, error) {
@@ -367,6 +374,7 @@ type ctxWriteCloser struct {
 	io.WriteCloser
 	ctx                 context.Context
 	partialWriteTimeout time.Duration
+	written             int // bytes written since setWriteContext
 }
 
 // Write bytes to a writer while making a best effort to
@@ -375,6 +383,7 @@ type ctxWriteCloser struct {
 // ignore the Done signal to avoid partial writes.
 func (wc *ctxWriteCloser) Write(b []byte) (int, error) {
 	n, err := wc.write(b)
+	wc.written += n
 	if n > 0 && n < len(b) {
 		err = partialWriteError{err}
 	}
@@ -382,7 +391,7 @@ func (wc *ctxWriteCloser) Write(b []byte) (int, error) {
 	return n, err
 }
 
-func (wc *ctxWriteCloser) setWriteContext(ctx context.Context) { wc.ctx = ctx }
+func (wc *ctxWriteCloser) setWriteContext(ctx context.Context) { wc.ctx, wc.written = ctx, 0 }
 
 func (wc *ctxWriteCloser) write(b []byte) (int, error) {
 	select {
